@@ -455,7 +455,7 @@ func runC20(tier, replay string) {
 	if r.Thorough() {
 		cfgs = c20Configs
 	}
-	nh, steps := r.N(20, 400), r.N(30, 40)
+	nh, steps := r.N(20, 150), r.N(30, 40)
 	if rf != nil && rf.Witness.Part == "seq" {
 		steps = rf.Witness.Steps
 	}
